@@ -370,6 +370,51 @@ class ScriptedGenerator(sg.SproutCandidatesGenerator):
         return out
 
 
+class Decisions:
+    """per-step decision queues filled by the TreeMachine (pbt/machine.py) before every run_step()"""
+
+    def __init__(self):
+        self.stops: list = []
+        self.proposals: list = []
+
+
+class QueueLSC(LocalStopCondition):
+    """user-defined LSC: the verdicts of this step are pre-set by whoever drives the tree"""
+
+    def __init__(self, decisions: Decisions):
+        self.decisions = decisions
+
+    def __call__(self, deme) -> bool:
+        q = self.decisions.stops
+        return bool(q.pop(0)) if q else False
+
+
+class QueueGenerator(sg.SproutCandidatesGenerator):
+    """user generator: proposes pre-set members of each active non-leaf deme's current population"""
+
+    def __init__(self, decisions: Decisions, nbc_mean_distance: float):
+        self.decisions = decisions
+        self.nbc_mean_distance = nbc_mean_distance
+
+    def __call__(self, tree):
+        out = {}
+        for level in tree.levels[:-1]:
+            for deme in level:
+                if not deme.is_active:
+                    continue
+                q = self.decisions.proposals
+                idxs = q.pop(0) if q else []
+                pop = deme.current_population
+                chosen, seen = [], set()
+                for j in idxs:
+                    j = j % len(pop)
+                    if j not in seen:
+                        seen.add(j)
+                        chosen.append(pop[j])
+                out[deme] = DemeCandidates(individuals=chosen, features=DemeFeatures(nbc_mean_distance=self.nbc_mean_distance))
+        return out
+
+
 class ProxySEA:
     """ea_class pass-through: logs parents handed in and offspring returned by the real engine"""
 
@@ -443,6 +488,8 @@ def base_minimum(sc: dict) -> float:
         return float(o.get("const", 1.0))
     if o["family"] == "linear":
         return float(sum(min(0.0, w) for w in o["weights"]))
+    if o["family"] == "offset":
+        return 1000.0
     return 0.0
 
 
@@ -478,8 +525,10 @@ def build_problem(sc: dict, trace: Trace, tag, wrappers: list, sign=None):
     return p, layers, rec
 
 
-def build_lsc(spec: dict):
+def build_lsc(spec: dict, decisions=None):
     k = spec["kind"]
+    if k == "Queue":
+        return QueueLSC(decisions)
     if k == "DontStop":
         return DontStop()
     if k == "DontRun":
@@ -594,7 +643,7 @@ def build_gsc(sc: dict, precision_problem):
     raise ValueError(k)
 
 
-def build_mechanism(sc: dict, trace: Trace, observe_chain: bool):
+def build_mechanism(sc: dict, trace: Trace, observe_chain: bool, decisions=None):
     s = sc["sprout"]
     ms = min(hi - lo for lo, hi in sc["box"])
     k = s["kind"]
@@ -610,6 +659,8 @@ def build_mechanism(sc: dict, trace: Trace, observe_chain: bool):
             gen = sg.NBC_Generator(g["distance_factor"], g["truncation_factor"])
         elif g["kind"] == "NBCLocal":
             gen = sg.NBCGeneratorWithLocalMethod(g["distance_factor"], g["truncation_factor"])
+        elif g["kind"] == "Queue":
+            gen = QueueGenerator(decisions, g.get("nbc_mean_distance_frac", 0.01) * ms)
         elif g["kind"] == "Scripted":
             gen = ScriptedGenerator(g.get("tape", []), g.get("default_k", 1), g.get("nbc_mean_distance_frac", 0.01) * ms)
         else:
@@ -677,6 +728,9 @@ class Checker:
     def on_end(self, run) -> None: ...
 
 
+from .timeouts import CaseTimeout, time_limit  # noqa: E402
+
+
 def crash_bucket(exc: BaseException) -> str:
     tb = traceback.extract_tb(exc.__traceback__)
     inner = None
@@ -708,6 +762,8 @@ class Run:
         self.recorders: list = []
         self.lsc_observers: list = []
         self.ended = False
+        self.timed_out = False
+        self.decisions = Decisions()
 
     # -- construction ---------------------------------------------------------
     def build_config(self) -> TreeConfig:
@@ -732,13 +788,13 @@ class Run:
                     precision_problem = precision_problem or w
         levels = []
         for i in range(n):
-            lsc = ObservedLSC(build_lsc(sc["levels"][i]["lsc"]), self.trace, i)
+            lsc = ObservedLSC(build_lsc(sc["levels"][i]["lsc"], self.decisions), self.trace, i)
             self.lsc_observers.append(lsc)
             levels.append(build_level(sc, i, probs[i], lsc, self.trace, self.proxy_engines))
         inner_gsc = self.gsc_override if self.gsc_override is not None else build_gsc(sc, precision_problem)
         self.inner_gsc = inner_gsc
         self.gsc = CapOr(inner_gsc, int(sc["cap"]), self.trace)
-        self.mechanism = ObservedMechanism(build_mechanism(sc, self.trace, self.observe_chain), self.trace, sc)
+        self.mechanism = ObservedMechanism(build_mechanism(sc, self.trace, self.observe_chain, self.decisions), self.trace, sc)
         opts = dict(sc["options"])
         cfg = TreeConfig(levels, self.gsc, self.mechanism, options=opts, config_class_to_deme_class={RandomSearchConfig: RandomSearchDeme})
         self.config = cfg
@@ -747,8 +803,13 @@ class Run:
     def start(self) -> bool:
         """build config + tree (the root's initial population is evaluated here). False on crash."""
         try:
-            cfg = self.build_config()
-            self.tree = DemeTree(cfg)
+            with time_limit():
+                cfg = self.build_config()
+                self.tree = DemeTree(cfg)
+        except CaseTimeout as e:
+            self.crash = ("timeout", str(e))
+            self.timed_out = True
+            return False
         except Exception as e:  # noqa: BLE001
             self.crash = (crash_bucket(e), "".join(traceback.format_exception(e))[-1500:])
             return False
@@ -768,7 +829,11 @@ class Run:
         if self.tree is None and not self.start():
             return
         try:
-            self.tree.run()
+            with time_limit():
+                self.tree.run()
+        except CaseTimeout as e:
+            self.crash = ("timeout", str(e))
+            self.timed_out = True
         except Exception as e:  # noqa: BLE001
             self.crash = (crash_bucket(e), "".join(traceback.format_exception(e))[-1500:])
         self.finish()
@@ -789,8 +854,12 @@ class Run:
         if self.tree is None and not self.start():
             return
         try:
-            while not self.head():
-                self.tree.run_step()
+            with time_limit():
+                while not self.head():
+                    self.tree.run_step()
+        except CaseTimeout as e:
+            self.crash = ("timeout", str(e))
+            self.timed_out = True
         except Exception as e:  # noqa: BLE001
             self.crash = (crash_bucket(e), "".join(traceback.format_exception(e))[-1500:])
         self.finish()
@@ -799,6 +868,8 @@ class Run:
         if self.ended:
             return
         self.ended = True
+        if self.timed_out:
+            return
         for ch in self.checkers:
             ch.on_end(self)
 
